@@ -490,7 +490,13 @@ func (g *isoGen) validPacket(t int) []byte {
 		return []byte{0x20, 0x02, byte(r.Intn(2)), byte(r.Intn(6))}
 	case 3:
 		q := r.Intn(3)
-		return wPub{qos: q, retain: false, topic: g.topic(), id: g.pid(), payload: g.smallPayload(), dup: q > 0 && r.Intn(5) == 0}.encode()
+		t := g.topic()
+		if r.Intn(6) == 0 {
+			// a topic the store turns away (first character '$'): the publisher keeps its connection,
+			// nobody receives anything, and nothing may stay locked behind the refusal
+			t = []byte(pick(r, []string{"$SYS/x", "$w", "$"}))
+		}
+		return wPub{qos: q, retain: false, topic: t, id: g.pid(), payload: g.smallPayload(), dup: q > 0 && r.Intn(5) == 0}.encode()
 	case 4, 5, 6, 7, 11:
 		return wAck(t, g.pid())
 	case 8:
